@@ -26,7 +26,7 @@ TRUSTED = ['the first-request parser / plugin dispatch and the pipelined-request
            'the real objects at the handle_data boundary and given to the model as the oracle of that event',
            'FakeSock (harness/sim.py) stands for a non-blocking kernel socket: send accepts min(k, offered) bytes or raises; recv returns the scripted piece']
 ASSUMPTIONS = ['no user plugins (hook chains are the identity), --enable-conn-pool off, no TLS interception',
-               'model describes the tree with proposed_fixes/C01-guard-response-parse.diff and C07-write-side-teardown.diff applied']
+               'model describes /repo after fix commits ba95ac6 (C01-guard-response-parse) and ae6ca23 (C07-write-side-teardown)']
 SHARD = 40
 
 
